@@ -285,6 +285,7 @@ def main():
     ap.add_argument("--max-per-func", type=int, default=40)
     ap.add_argument("--out", required=True)
     ap.add_argument("--recheck", default=None)
+    ap.add_argument("--seed", type=int, default=11)
     a = ap.parse_args()
     if a.recheck:
         jobs = [tuple(json.loads(l)["job"]) for l in open(a.recheck)]
@@ -293,7 +294,7 @@ def main():
         prog = Program("/repo")
         fp = func_props()
         jobs = []
-        rnd = random.Random(11)
+        rnd = random.Random(a.seed)
         for q, props in sorted(fp.items()):
             if a.only and a.only not in q:
                 continue
